@@ -33,6 +33,7 @@ RULE = (
     "negation, or a value contains a special character, or the chain has >= 2 transformations."
 )
 RULE += (" " + 'A quarter of the cases first converts a rule from another log source with the same backend and pipeline objects (the rewrite must not depend on what was processed before).')
+RULE += (" Values include long strings (40-75 characters) with 17-33 matches of every replacement pattern, long camel-case runs and long paths.")
 ASSUMPTIONS = [
     "the rewrite engine in vf/props/c12.py states the documented meaning of each transformation",
     "negated items under one-to-many mappings, case-sensitive strings under value transformations and "
@@ -532,7 +533,10 @@ def _idclass(chain, doc):
 
 def _wclass(chain, doc):
     flat = list(_flat(chain))
-    if any(t["type"] == "replace_string" for t in flat) and _has_number(doc):
+    # numbers reach a replace_string item from the document or from a condition added earlier in the chain
+    added_number = any(t["type"] == "add_condition" and _has_number({"detection": {"x": t.get("conditions", {})}}) and
+                       any(u["type"] == "replace_string" for u in flat[i + 1:]) for i, t in enumerate(flat))
+    if any(t["type"] == "replace_string" for t in flat) and (_has_number(doc) or added_number):
         return "replace_string:number-becomes-string"
     names = "+".join(sorted({t["type"] for t in flat}))
     if any(t["type"] in ("replace_string", "map_string") for t in chain) and _backslash_adjacent(doc):
@@ -543,12 +547,14 @@ def _wclass(chain, doc):
 # ---- generators ------------------------------------------------------------------------------------
 
 STRS = ["a", "Ab", "abc", "x*", "*ab*", "a?c", "Admin User", "a\\*b", "C:\\Win\\x", "5", "camelCaseValue", "", "a\\\\*"]
+# long values: many matches of every replacement pattern in one string, camel-case runs, long paths
+LONGS = ["ab" * 20, "a" * 33 + "c", "x" + "aAb" * 25, "C:" + "\\Win" * 18 + "\\x", "*" + "ab?" * 17 + "*", "oneTwoThree" * 6]
 
 
 @st.composite
 def docs(draw, hashes=False, placeholders=False):
     def val():
-        return draw(st.one_of(st.sampled_from(STRS), st.integers(0, 20), st.none()))
+        return draw(st.one_of(st.sampled_from(STRS), st.sampled_from(STRS + LONGS), st.integers(0, 20), st.none()))
 
     def key_value():
         f = draw(st.sampled_from(FIELDS))
@@ -558,7 +564,7 @@ def docs(draw, hashes=False, placeholders=False):
         if mod == "|fieldref":
             return f + mod, draw(st.sampled_from(FIELDS))
         if mod in ("|contains", "|startswith", "|endswith"):
-            return f + mod, draw(st.sampled_from(STRS[:9]))
+            return f + mod, draw(st.sampled_from(STRS[:9] + LONGS))
         if mod == "|contains|all":
             return f + mod, draw(st.lists(st.sampled_from(STRS[:6]), min_size=2, max_size=3))
         v = val() if draw(st.booleans()) else [val() for _ in range(draw(st.integers(1, 3)))]
